@@ -574,18 +574,16 @@ class DecBandEventSectionMethod(
         delta_angle = self._delta_angle
         src_arr = self._src_arr
 
-        # Calculates the minus and plus declination around each source and
-        # bound it to -90deg and +90deg, respectively.
-        src_dec_minus = np.maximum(-np.pi/2, src_arr['dec'] - delta_angle)
-        src_dec_plus = np.minimum(src_arr['dec'] + delta_angle, np.pi/2)
-
         # Determine the mask for the events which fall inside the declination
         # window.
         # mask_dec is a (N_sources,N_events)-shaped ndarray.
+        # The band edges bound to -90deg and +90deg are not used for the
+        # comparison: an event located exactly at a pole lies within the band
+        # of a source whose band reaches that pole.
         with TaskTimer(tl, 'ESM-DecBand: Calculate mask_dec.'):
             mask_dec = (
-                (events['dec'] > src_dec_minus[:, np.newaxis]) &
-                (events['dec'] < src_dec_plus[:, np.newaxis])
+                (events['dec'] > (src_arr['dec'] - delta_angle)[:, np.newaxis]) &
+                (events['dec'] < (src_arr['dec'] + delta_angle)[:, np.newaxis])
             )
             if src_evt_idxs is not None:
                 # Consider only the source and event combinations selected by
@@ -908,10 +906,13 @@ class SpatialBoxEventSelectionMethod(
         # Determine the mask for the events which fall inside the declination
         # window.
         # mask_dec is a (N_sources,N_events)-shaped ndarray.
+        # The band edges bound to -90deg and +90deg are not used for the
+        # comparison: an event located exactly at a pole lies within the band
+        # of a source whose band reaches that pole.
         with TaskTimer(tl, 'ESM: Calculate mask_dec.'):
             mask_dec = (
-                (events['dec'] > src_dec_minus[:, np.newaxis]) &
-                (events['dec'] < src_dec_plus[:, np.newaxis])
+                (events['dec'] > (srcs_dec - delta_angle)[:, np.newaxis]) &
+                (events['dec'] < (srcs_dec + delta_angle)[:, np.newaxis])
             )
 
         # Determine the mask for the events which fall inside the
